@@ -22,6 +22,8 @@ package copyh
 //	XX.n       dst.Exists returned an error
 //	SX.n       src.Fetch returned an error
 //	PX.n.r.s   dst.Push (r=0) / PushReference (r=1) returned an error; s=1: the content was stored
+//	SR.n       Read() of the stream fetched for n failed outside a destination Push / Mount (the proxy
+//	           reading a manifest for FindSuccessors); inside a Push / Mount that operation reports it
 //	TX.n.s     dst.Tag returned an error; s=1: the reference was set
 //	MX.n.s     dst.Mount returned an error of its own; s=1: the blob was stored (mounted / uploaded)
 //	QK / QX    a prologue operation (MapRoot, Predecessors) returned / failed
@@ -60,7 +62,7 @@ import (
 
 // Fault is one injection point.
 type Fault struct {
-	Op     string `json:"op"`     // exists | fetch | push | tag | mount | pred | pre | post | skip | mountfrom | mounted | maproot
+	Op     string `json:"op"`     // exists | fetch | read | push | tag | mount | pred | pre | post | skip | mountfrom | mounted | maproot
 	Node   int    `json:"node"`   // node id (-1 for maproot)
 	After  bool   `json:"after"`  // after the side effect of the real operation (else before it)
 	Cancel bool   `json:"cancel"` // cancel the context of the call instead of returning an error
@@ -200,6 +202,7 @@ type fcall struct {
 	viol   []string    // monitor: pushes that completed before a successor was present
 	extraFired []string
 	seed   uint64
+	pushing map[int]int // nodes whose fetched stream is being consumed by a destination Push / Mount
 }
 
 func (f *fcall) pause(n int) {
@@ -276,10 +279,66 @@ func (s *fsrc) Fetch(ctx context.Context, d ocispec.Descriptor) (io.ReadCloser, 
 	}
 	f.pause(n)
 	f.ev(fmt.Sprintf("SE.%d", n), 0, 0)
-	return &closeRec{Reader: rc, c: rc, f: func() {
+	return &closeRec{Reader: &faultReader{r: rc, f: f, n: n, half: d.Size / 2}, c: rc, f: func() {
 		f.pause(n)
 		f.ev(fmt.Sprintf("SC.%d", n), -1, 0)
 	}}, nil
+}
+
+// faultReader delivers the "read" faults: an error from Read() of a fetched stream at the first
+// read (before) or after half of the bytes (after).  When the stream is being consumed by a
+// destination Push / Mount the failure is reported by that operation (PX / MX token); otherwise
+// (the proxy reading a manifest for FindSuccessors) the token SR.n is logged here.
+type faultReader struct {
+	r         io.Reader
+	f         *fcall
+	n         int
+	half      int64
+	delivered int64
+	started   bool
+	afterSeen bool
+	failed    bool
+}
+
+func (fr *faultReader) fail() (int, error) {
+	fr.failed = true
+	fr.f.fmu.Lock()
+	inPush := fr.f.pushing[fr.n] > 0
+	fr.f.fmu.Unlock()
+	if !inPush {
+		fr.f.ev(fmt.Sprintf("SR.%d", fr.n), 0, 0)
+	}
+	return 0, errFault
+}
+
+func (fr *faultReader) Read(p []byte) (int, error) {
+	if fr.failed {
+		return 0, errFault
+	}
+	if !fr.started {
+		fr.started = true
+		if fr.f.hit("read", fr.n, false) {
+			return fr.fail()
+		}
+	}
+	if !fr.afterSeen && fr.delivered >= fr.half {
+		fr.afterSeen = true
+		if fr.f.hit("read", fr.n, true) {
+			return fr.fail()
+		}
+	}
+	if !fr.afterSeen && int64(len(p)) > fr.half-fr.delivered {
+		p = p[:fr.half-fr.delivered]
+	}
+	k, err := fr.r.Read(p)
+	fr.delivered += int64(k)
+	return k, err
+}
+
+func (f *fcall) setPushing(n int, d int) {
+	f.fmu.Lock()
+	f.pushing[n] += d
+	f.fmu.Unlock()
 }
 
 func (s *fsrc) Exists(ctx context.Context, d ocispec.Descriptor) (bool, error) {
@@ -402,7 +461,9 @@ func (d *fdst) push(ctx context.Context, t ocispec.Descriptor, rd io.Reader, ref
 		return errFault
 	}
 	had, _ := f.under.Exists(context.Background(), t)
+	f.setPushing(n, 1)
 	err := f.under.Push(ctx, t, rd)
+	f.setPushing(n, -1)
 	res := "k"
 	if errors.Is(err, errdef.ErrAlreadyExists) || (err == nil && had) {
 		res = "x"
@@ -504,7 +565,9 @@ func (d fdstMount) Mount(ctx context.Context, t ocispec.Descriptor, fromRepo str
 		}
 		return fmt.Errorf("cannot read source blob: %w", err)
 	}
+	f.setPushing(n, 1)
 	err = f.under.Push(ctx, t, rc)
+	f.setPushing(n, -1)
 	rc.Close()
 	if err != nil && !errors.Is(err, errdef.ErrAlreadyExists) {
 		f.pause(n)
@@ -640,7 +703,7 @@ func runCall(c *FCase, g *dag.Graph, src, dst oras.Target, faults []Fault, preCa
 	for _, n := range g.Nodes {
 		r.idx[keyOf(n.Desc)] = n.ID
 	}
-	f := &fcall{rec: r, c: c, g: g, faults: faults, fired: make([]bool, len(faults)), slow: map[int]bool{}, under: dst, seed: seed}
+	f := &fcall{rec: r, c: c, g: g, faults: faults, fired: make([]bool, len(faults)), slow: map[int]bool{}, under: dst, seed: seed, pushing: map[int]int{}}
 	for _, s := range c.Slow {
 		f.slow[s] = true
 	}
@@ -1114,7 +1177,7 @@ func distinctDigests(g *dag.Graph) bool {
 	return true
 }
 
-var fOps = []string{"exists", "exists", "fetch", "fetch", "push", "push", "push", "pre", "post", "skip"}
+var fOps = []string{"exists", "exists", "fetch", "fetch", "read", "read", "push", "push", "push", "pre", "post", "skip"}
 
 // GenerateF builds the case of a stream from its seed.
 func GenerateF(genseed uint64, stream string, thorough bool) *FCase {
@@ -1339,7 +1402,7 @@ func generateShared2(r *common.Rand, c *FCase) *FCase {
 	if su := g.Nodes[ro.Q].Succ; len(su) > 0 && r.Chance(1, 3) {
 		fn = su[0]
 	}
-	op := common.Pick(r, []string{"push", "push", "push", "fetch", "exists", "pre", "post"})
+	op := common.Pick(r, []string{"push", "push", "push", "fetch", "read", "exists", "pre", "post"})
 	c.Faults = []Fault{{Op: op, Node: fn, After: r.Bool() && op != "push"}}
 	// slow: the grandchild claimed elsewhere and the other sibling (+ its descendants), sometimes M1 too
 	switch v := r.Intn(8); {
@@ -1388,7 +1451,7 @@ func allPlacements(c *FCase, g *dag.Graph) []Fault {
 	sort.Ints(rl)
 	var out []Fault
 	for _, n := range rl {
-		for _, op := range []string{"exists", "fetch", "push"} {
+		for _, op := range []string{"exists", "fetch", "read", "push"} {
 			for _, after := range []bool{false, true} {
 				for _, cn := range []bool{false, true} {
 					out = append(out, Fault{Op: op, Node: n, After: after, Cancel: cn})
